@@ -77,9 +77,9 @@ func registerAll() {
 			{name: "frame-faults", build: "rpc", params: map[string]any{"kind": "frame"}, quick: tierCfg{wallSec: 20, detPct: 3}, thorough: tierCfg{wallSec: 600, detPct: 1}},
 			{name: "frame-enumerate", build: "rpc", params: map[string]any{"kind": "frame", "enumerate": true}, quick: tierCfg{wallSec: 10}, thorough: tierCfg{wallSec: 1200}},
 		},
-		rule: "each evaluation is one scenario: two real PacketConns over a simulated byte stream (encryption none / AES forced / AES because untrusted / none because trusted subnet; protocol 0,1,2; read/write buffers 1..4096; 1..30 packets per direction of length 0..3000 written through a seeded mix of WritePacket, WritePacket2, NoFlush+Flush and header/body.../trailer with seeded body splits; stream segmentation 1..1500 bytes, short reads, latency jitter; the four goroutines interleaved by the token scheduler). Fault-free: each reader must return exactly the written sequence then io.EOF. frame-faults: one corruption (seeded offset after the handshake, masks 0x01/0x80/0xFF/one bit/random) or one reset per evaluation; the reader must never return an altered packet and must report an error. frame-enumerate: for each sampled small scenario EVERY byte offset after the handshake of both directions x masks {0x01,0x80,0xFF} is re-run under the same schedule tape (the single-fault space of that scenario is enumerated; 'faulted re-runs' in the counters). Non-trivial = at least one contended scheduling decision and at least one packet round-tripped; distinct = distinct schedule+fault signature.",
+		rule: "each evaluation is one scenario: two real PacketConns over a simulated byte stream (encryption none / AES forced / AES because untrusted / none because trusted subnet; protocol 0,1,2; read/write buffers 1..4096; 1..30 packets per direction of length 0..3000 written through a seeded mix of WritePacket, WritePacket2, NoFlush+Flush and header/body.../trailer with seeded body splits; stream segmentation 1..1500 bytes, short reads, latency jitter; the four goroutines interleaved by the token scheduler). Fault-free: each reader must return exactly the written sequence then io.EOF. A quarter of the fault-free runs are in ping mode: read timeouts 2..6 s, writers that flush and go silent, stream window 256 B..1 MiB, one bounded sleep per reader, so that pings and pongs are written by the reader goroutines concurrently with the writer goroutines of the same end (half of them directed: the reader's deadline falls while its end's writer is blocked in the middle of a packet larger than its write buffer); there the run is ended by closing both connections once everything was read, and the oracle is all packets, unaltered, in order. A handshake rejected by the documented clock check after a simulated stall of more than 30 s is an environment fault and is skipped (counted). A fault-free run that blocks for ever after the handshake is a violation. frame-faults: one corruption (seeded offset after the handshake, masks 0x01/0x80/0xFF/one bit/random) or one reset per evaluation; the reader must never return an altered packet and must report an error. frame-enumerate: for each sampled small scenario EVERY byte offset after the handshake of both directions x masks {0x01,0x80,0xFF} is re-run under the same schedule tape (the single-fault space of that scenario is enumerated; 'faulted re-runs' in the counters). Non-trivial = at least one contended scheduling decision and at least one packet round-tripped; distinct = distinct schedule+fault signature.",
 		assumptions: []string{stdAssume, "a corrupted cipher block could be accepted by the 32-bit CRC with probability 2^-32 (the seeded crypto/rand makes even that replayable)",
-			"'without the encrypted handshake' = the unencrypted outcome of the nonce/handshake exchange (a connection cannot carry packets before it)", "ping/pong timeouts are not part of the framing workload (read timeout 0)"},
+			"'without the encrypted handshake' = the unencrypted outcome of the nonce/handshake exchange (a connection cannot carry packets before it)", "in ping mode a peer always answers within the timeout (sleeps are bounded by a quarter of it, the clock moves only when every goroutine is blocked): dead-peer detection itself is exercised by the C38 stall faults, not here"},
 		components: rpcComponents,
 	}
 
@@ -91,7 +91,7 @@ func registerAll() {
 			{name: "calls-faults", build: "rpc", params: map[string]any{"kind": "calls", "focus": "C38"}, quick: tierCfg{wallSec: 30, detPct: 3}, thorough: tierCfg{wallSec: 1500, detPct: 1}},
 			{name: "rpc-race", build: "rpc-race", params: map[string]any{"kind": "calls", "focus": "C38", "race": true}, quick: tierCfg{wallSec: 15}, thorough: tierCfg{wallSec: 600}},
 		},
-		rule: "each evaluation is one simulated run: 1..2 real rpc.Server and 1..3 real rpc.Client over the simulated network (tcp4 loopback / tcp4 non-loopback = AES required / unix; forced encryption on/off; protocol 0..2; connection buffers 1..2048), 1..16 concurrent calls (Do and DoCallback; TL1/TL2; actor id; seeded request/response extras; handlers echo / rpc error / plain error / panic / gated by the simulator; context deadlines, custom timeouts, caller cancellation at a seeded step, FailIfNoConnection), each carrying a unique token; faults: connection reset, stall (ping/pong and timeouts), dial refusal, Server.Shutdown/Close and Client.Close at seeded simulated times with calls in flight; per-run knobs: stream segmentation, short reads, socket capacity (write blocking), sync.Pool policy, map order, Cond wake order, scheduler strategy, clock-advance probability. Oracle per completed call and bounded-liveness/wind-down oracle at the end (see DESIGN §3.3). Non-trivial = a contended scheduling decision happened and at least one call completed; distinct = distinct schedule+fault signature.",
+		rule: "each evaluation is one simulated run: 1..2 real rpc.Server and 1..3 real rpc.Client over the simulated network (tcp4 loopback / tcp4 non-loopback = AES required / unix; forced encryption on/off; protocol 0..2; connection buffers 1..2048), 1..16 concurrent calls (Do and DoCallback; TL1/TL2; actor id; seeded request/response extras; handlers echo / rpc error / plain error / panic / gated by the simulator; context deadlines, custom timeouts, caller cancellation at a seeded step, FailIfNoConnection; rpc errors returned bare or wrapped by an outer error; caller contexts carrying tracing/execution contexts; one run in six has two bursts separated by a quiet period of 61..121 simulated seconds), each carrying a unique token; faults: connection reset, stall (ping/pong and timeouts), dial refusal, Server.Shutdown/Close and Client.Close at seeded simulated times with calls in flight; per-run knobs: stream segmentation, short reads, socket capacity (write blocking), sync.Pool policy, map order, Cond wake order, scheduler strategy, clock-advance probability. Oracle per completed call and bounded-liveness/wind-down oracle at the end (see DESIGN §3.3). Non-trivial = a contended scheduling decision happened and at least one call completed; distinct = distinct schedule+fault signature.",
 		assumptions: callsAssume, components: rpcComponents,
 	}
 
@@ -100,7 +100,7 @@ func registerAll() {
 			{name: "limits-faultfree", build: "rpc", params: map[string]any{"kind": "calls", "focus": "C39", "faults": "none"}, quick: tierCfg{wallSec: 20, detPct: 3}, thorough: tierCfg{wallSec: 900, detPct: 1}},
 			{name: "limits-faults", build: "rpc", params: map[string]any{"kind": "calls", "focus": "C39"}, quick: tierCfg{wallSec: 15, detPct: 3}, thorough: tierCfg{wallSec: 600, detPct: 1}},
 		},
-		rule: "each evaluation is one simulated run of the C38 workload biased to load: servers with MaxWorkers 1..3, RequestBufSize 32..128 and RequestMemoryLimit 1..4 buffers, 2..40 concurrent requests of seeded sizes (0..3 buffers) from 1..3 clients, most handlers held at a gate that the simulator opens at a seeded simulated time (so the overlap is the simulator's decision). Oracle: at every handler entry the number of executing handlers <= MaxWorkers; at every handler entry and at every quiescent point of the scheduler the request memory accounted by the server's semaphore <= RequestMemoryLimit (read through an overlay-added accessor); bounded liveness: once gates open every call completes (C38 oracle), which turns an accounting leak into a stuck call. Non-trivial = a contended scheduling decision and at least one completed call; distinct = distinct schedule+fault signature.",
+		rule: "each evaluation is one simulated run of the C38 workload biased to load: servers with MaxWorkers 1..3, RequestBufSize 32..128 and RequestMemoryLimit 1..4 buffers, 2..40 concurrent requests of seeded sizes (0..3 buffers) from 1..3 clients, most handlers held at a gate that the simulator opens at a seeded simulated time (so the overlap is the simulator's decision). Oracle: at every handler entry the number of executing handlers <= MaxWorkers; at every handler entry and at every quiescent point of the scheduler the request memory accounted by the server's semaphore <= RequestMemoryLimit (read through an overlay-added accessor); bounded liveness: once gates open every call completes (C38 oracle), which turns an accounting leak into a stuck call. One run in six has a second burst after more than the 60 s idle-worker collection. Non-trivial = a contended scheduling decision and at least one completed call; distinct = distinct schedule+fault signature.",
 		assumptions: append([]string{"MaxWorkers <= 0 (pool disabled by documentation) is outside the property and not generated"}, callsAssume...), components: rpcComponents,
 	}
 	properties["C40"] = &property{id: "C40", engine: "rpc", level: "exploration",
@@ -108,7 +108,7 @@ func registerAll() {
 			{name: "extras-faultfree", build: "rpc", params: map[string]any{"kind": "calls", "focus": "C40", "faults": "none"}, quick: tierCfg{wallSec: 15, detPct: 3}, thorough: tierCfg{wallSec: 600, detPct: 1}},
 			{name: "extras-faults", build: "rpc", params: map[string]any{"kind": "calls", "focus": "C40"}, quick: tierCfg{wallSec: 15, detPct: 3}, thorough: tierCfg{wallSec: 600, detPct: 1}},
 		},
-		rule: "each evaluation is one simulated run of the C38 workload; every call carries a seeded RequestExtra (any subset of 20 optional fields incl. maps, vectors, trace context, execution context), actor id and TL1/TL2 body format, every handler sets a seeded ResponseExtra (any subset of 9 field groups) or an error code/description. Oracle: canonical serialisation (WriteTL1) of what the handler observed == what the client set, after exactly the documented normalisations (CustomTimeoutMs derived from the context deadline / explicit zero cleared; response extra masked by the request's flag bits; error code 0 becomes Unknown; plain errors arrive as Unknown with their text; panics as Internal); actor id and body format unchanged. The property has no fault of its own: the claim is that it holds end-to-end through the concurrent client and server under every explored schedule, pool reuse pattern (LIFO reuse exposes stale extras), reconnect and fault. Non-trivial = a contended scheduling decision and at least one completed call; distinct = distinct schedule+fault signature.",
+		rule: "each evaluation is one simulated run of the C38 workload; every call carries a seeded RequestExtra (any subset of 20 optional fields incl. maps, vectors, trace context, execution context), actor id and TL1/TL2 body format, every handler sets a seeded ResponseExtra (any subset of 9 field groups) or an error code/description. Oracle: canonical serialisation (WriteTL1) of what the handler observed == what the client set, after exactly the documented normalisations (CustomTimeoutMs derived from the context deadline / explicit zero cleared; an execution/tracing context carried by the caller's context fills in the corresponding field of a request with an actor id if and only if the request did not set it; response extra masked by the request's flag bits; an *rpc.Error keeps its code and description also when the handler wrapped it; error code 0 becomes Unknown; plain errors arrive as Unknown with their text; panics as Internal); actor id and body format unchanged. The property has no fault of its own: the claim is that it holds end-to-end through the concurrent client and server under every explored schedule, pool reuse pattern (LIFO reuse exposes stale extras), reconnect and fault. Non-trivial = a contended scheduling decision and at least one completed call; distinct = distinct schedule+fault signature.",
 		assumptions: append([]string{"no_result requests are refused by the client and not generated", "the codec-level statement (pure function of the input) is not separately claimed"}, callsAssume...), components: rpcComponents,
 	}
 
@@ -128,8 +128,8 @@ func registerAll() {
 			{name: "det-tl2gen", build: "gen2", params: map[string]any{"mode": "c15"}, quick: tierCfg{wallSec: 40}, thorough: tierCfg{wallSec: 1500}},
 			{name: "det-tlgen", build: "gen1", params: map[string]any{"mode": "c15"}, quick: tierCfg{wallSec: 25}, thorough: tierCfg{wallSec: 900}},
 		},
-		rule: "each evaluation: one (schema set, language, option set) triple from the repository's own Makefile targets (go x5 incl. split-internal/TL2/byte versions/random/RPC code, php new+legacy, cpp x3, tlo, canonical, tljson.html, legacy tlo+canonical) is generated once as reference (ascending map order at every one of the rewritten map-range sites, writer pool width 1, lowest-id schedule, inputs as listed) and then 2 more times in fresh OS processes, each with a seeded map order policy (descending / seeded shuffle per range execution), writer pool width 1..8, scheduler strategy and tape for the pool's goroutines, and a seeded permutation of the input paths; the resulting file trees on the simulated disk must be byte-identical. Non-trivial = at least one variant output was compared; distinct = distinct (triple, variants, output hash) log.",
-		assumptions: []string{stdAssume, "schema content is not varied beyond the repository's schema sets (random schema synthesis is C14's subject, not a simulation target)",
+		rule: "each evaluation: one (schema set, language, option set) triple from the repository's own Makefile targets (go x5 incl. split-internal/TL2/byte versions/random/RPC code, php new+legacy, cpp x3, tlo, canonical, tljson.html, legacy tlo+canonical; plus five triples over synthetic schemas derived from a seed) is generated once as reference (ascending map order at every one of the rewritten map-range sites, writer pool width 1, lowest-id schedule, inputs as listed) and then 2 more times in fresh OS processes, each with a seeded map order policy (descending / seeded shuffle per range execution), writer pool width 1..8, scheduler strategy and tape for the pool's goroutines, and a seeded permutation of the input paths; the resulting file trees on the simulated disk must be byte-identical. A third of the variants generate over the reference output instead of into an empty directory (the everyday regeneration), with the same requirement. runtime.NumCPU and runtime.GOMAXPROCS are both behind the width seam. Non-trivial = at least one variant output was compared; distinct = distinct (triple, variants, output hash) log.",
+		assumptions: []string{stdAssume, "schema content: the repository's schema sets, the harness's cycle/directory sets, and small synthetic schemas (eight seed-named types, a mask selects the present ones); general random schema synthesis is C14's subject, not a simulation target",
 			"pointer-keyed maps are ordered by a content fingerprint; ties fall back to the runtime's order and are counted (maprange.uncontrolled_ties): they cannot cause a false alarm but weaken exact replay"},
 		components: genComponents,
 	}
@@ -142,7 +142,7 @@ func registerAll() {
 			{name: "outdir-real-enumerate-tl2gen", build: "gen2", params: map[string]any{"mode": "c16-real", "enumerate": true}, thorough: tierCfg{wallSec: 1200}},
 			{name: "outdir-real-enumerate-tlgen", build: "gen1", params: map[string]any{"mode": "c16-real", "enumerate": true}, thorough: tierCfg{wallSec: 900}},
 		},
-		rule: "each evaluation is a history of 2..6 generations into one directory of the simulated disk, with foreign files planted (root, nested, marker removed) and disk faults (EIO, ENOSPC, EACCES, torn write, crash at mutating operation k). outdir-direct*: the real OutDir.Write driven with synthetic file maps (files appear, change, stay identical, disappear; nested directories; the documented '..' runtime path) under the token scheduler with writer pool width 1..8; outdir-real-*: the real generators switching between schema/option triples. Oracle against a path->content model: success => directory == exactly the generation's files (stale files gone, nested too); unchanged files have zero write operations in the operation log; non-empty directory without marker => refused with zero mutating operations; no mutating operation outside the output directory except the runtime-library location; failure under a fault => only whole old/new files (or a torn prefix). outdir-direct-enumerate: for each sampled history the last generation is re-run with EVERY fault kind at EVERY mutating-operation index (the single-fault space of that history is enumerated), followed by a fault-free generation that must restore exactness or refuse. Non-trivial = at least a second generation ran; distinct = distinct history log.",
+		rule: "each evaluation is a history of 2..6 generations into one directory of the simulated disk, with foreign files planted (root, nested, marker removed, symbolic links to a directory / a file elsewhere / nothing) and disk faults (EIO, ENOSPC, EACCES, torn write, crash at mutating operation k). outdir-direct*: the real OutDir.Write driven with synthetic file maps (files appear, change, stay identical, disappear; nested directories; the documented '..' runtime path) under the token scheduler with writer pool width 1..8; outdir-real-*: the real generators switching between schema/option triples; half of these histories use synthetic schema families that evolve (types appear, disappear, stay). Oracle against a path->content model: success => directory == exactly the generation's files (stale files gone, nested too); unchanged files have zero write operations in the operation log; non-empty directory without marker => refused with zero mutating operations; no mutating operation (by resolved path) outside the output directory except the runtime-library location, and every file that lived outside it is byte-identical afterwards; failure under a fault => only whole old/new files (or a torn prefix). outdir-direct-enumerate: for each sampled history the last generation is re-run with EVERY fault kind at EVERY mutating-operation index (the single-fault space of that history is enumerated), followed by a fault-free generation that must restore exactness or refuse. Non-trivial = at least a second generation ran; distinct = distinct history log.",
 		assumptions: []string{stdAssume, "leftover empty directories are tolerated, as the code documents", "the legacy C++ writer deliberately keeps *.o files; histories do not plant them"},
 		components:  genComponents,
 	}
